@@ -63,6 +63,23 @@ func srcDo(op []string) string {
 				return "err"
 			}
 			return fmt.Sprintf("ok %d %d %d %s", id, part, total, hx.Hex(data))
+		case "frag agg":
+			var parts, totals []uint8
+			var data [][]byte
+			if len(op) > 2 {
+				for _, p := range strings.Split(op[2], ",") {
+					f := strings.SplitN(p, ":", 3)
+					a, _ := strconv.Atoi(f[0])
+					b, _ := strconv.Atoi(f[1])
+					parts, totals, data = append(parts, uint8(a)), append(totals, uint8(b)), append(data, hx.Exact(hx.UnHex(f[2])))
+				}
+			}
+			done, asm := fragswarm.VerifAggregatorRun(parts, totals, data)
+			var sb strings.Builder
+			for _, d := range done {
+				sb.WriteString(b2s(d))
+			}
+			return fmt.Sprintf("d%s %s", sb.String(), hx.Hex(asm))
 		case "ke class":
 			x := a(2)
 			return b2s(p2pke.IsInitHello(x)) + b2s(p2pke.IsRespHello(x)) + b2s(p2pke.IsHello(x)) + b2s(p2pke.IsPostHandshake(x))
@@ -207,6 +224,26 @@ func srcStream(r *rand.Rand, n int, tier string, o *hx.Out) {
 				f = mutateFrame(r, f)
 			}
 			emit("frag parse " + hx.Hex(f))
+		case 13:
+			// fragments for one aggregator: mostly one part count, some contradicting it, duplicates, empty bodies
+			total := hx.Pick(r, 1, 2, 3, 4, 8, 255, r.Intn(6))
+			var fr []string
+			for k := 0; k < r.Intn(total+4); k++ {
+				t := total
+				if r.Intn(6) == 0 {
+					t = hx.Pick(r, 0, 1, total+1, 255, r.Intn(9))
+				}
+				part := hx.Pick(r, r.Intn(total+1), r.Intn(total+1), total-1, total, 255)
+				if part < 0 {
+					part = 0
+				}
+				fr = append(fr, fmt.Sprintf("%d:%d:%s", part, t, hx.Hex(hx.Bytes(r, hx.Pick(r, 0, 1, 2, 5)))))
+			}
+			op := "frag agg"
+			if len(fr) > 0 {
+				op += " " + strings.Join(fr, ",")
+			}
+			emit(op)
 		case 7:
 			x := hx.Bytes(r, hx.Pick(r, 0, 1, 3, 4, 5, 12, 40))
 			if len(x) >= 4 && r.Intn(2) == 0 {
